@@ -1,15 +1,14 @@
 /-
-  Ark.Proofs.GenBridge — ties the definitions REGENERATED from the Go source
-  (Ark/Generated/Logic.lean, rewritten by tools/extract on every run) to the hand-written model:
-  the model's predicates are proved equal to what the code says now, for all inputs.
-  A change of the Go decision logic changes the generated definition and breaks these
-  theorems (a harmless rewrite, e.g. commuted conjuncts, still passes: the proofs are Boolean
-  case analyses over the mask tests, not syntactic equalities).
+  Ark.Proofs.GenBridge.Obs — observer firing conditions (events.go).
+  Ties definitions REGENERATED from the Go source (tools/extract, on every run) to the
+  hand-written model: the model's definition is proved equal to what the code says now, for all
+  inputs. A change of the Go logic changes the generated definition and breaks these theorems (a
+  harmless rewrite, e.g. commuted conjuncts, still passes: the proofs are case analyses, not
+  syntactic equalities). One file per source fragment group, so that an untranslatable fragment
+  affects only the properties that depend on it.
 -/
-import Ark.Generated.Logic
+import Ark.Generated.Obs
 import Ark.Model.Observers
-import Ark.Model.Table
-import Ark.Model.World
 
 namespace Ark.GenBridge
 open Ark
@@ -167,40 +166,10 @@ theorem fireCustom_early_eq (es : EvtState) (mask : Mask) (entityMask : Mask) :
   generalize es.anyNoComps = b1; generalize es.anyNoWith = b2
   cases b1 <;> cases b2 <;> simp
 
-/-- `filter.matches` is the model's `Filter.matchesMask`. -/
-theorem filter_matches_eq (f : Filter) (m : Mask) :
-    Generated.filter_matches f.mask f.without f.hasWithout m = f.matchesMask m := by
-  unfold Generated.filter_matches Filter.matchesMask
-  cases f.hasWithout <;> simp
-
-/-- the loop of `observerManager.Reset` visits the event types the model visits -/
-theorem observerReset_bound_eq (n : Nat) : Generated.observerReset_bound n = ObsMgr.resetBound n := by
-  unfold Generated.observerReset_bound ObsMgr.resetBound
-  omega
-
-/-- the loop of `observerManager.Reset` visits every event type up to the highest registered one
-    (for all 256 values of the `uint8` event type) -/
-theorem observerReset_covers : ∀ maxEvt : Nat, maxEvt < 256 → ∀ e, e ≤ maxEvt → e < Generated.observerReset_bound maxEvt := by
-  intro m _ e he
-  unfold Generated.observerReset_bound
-  omega
-
-/-- `table.Extend` re-allocates exactly when the model does -/
-theorem tableExtend_eq (t : Table) (n : Nat) :
-    t.extend n = if Generated.tableExtend_noop t.len t.cap n then t else t.adjustCapacity (capPow2 (t.len + n)) := by
-  unfold Table.extend Generated.tableExtend_noop
-  rfl
-
-/-- `table.Shrink` / `table.CanShrink` decide as the model does -/
-theorem tableShrink_eq (t : Table) (m : Nat) :
-    t.shrink m = if Generated.tableShrink_noop t.cap (max (capPow2 t.len) m) then (t, false)
-                 else (t.adjustCapacity (max (capPow2 t.len) m), true) := by
-  unfold Table.shrink Generated.tableShrink_noop
-  rfl
-
-theorem tableCanShrink_eq (t : Table) (m : Nat) :
-    t.canShrink m = decide (Generated.tableCanShrink t.cap (max (capPow2 t.len) m)) := by
-  unfold Table.canShrink Generated.tableCanShrink
-  rfl
+/-- the `Fire…IfHas` wrappers test `hasObservers` and delegate with the early-out enabled (shape
+    checked by the extractor; the definitions exist only when the check passed) -/
+theorem ifHas_wrappers :
+    (Generated.fireCreateEntityIfHas_wrapper, Generated.fireCreateEntityRelIfHas_wrapper,
+      Generated.fireAddIfHas_wrapper) = ((), (), ()) := rfl
 
 end Ark.GenBridge
